@@ -12,9 +12,9 @@ import (
 func c02Alphabet(ctx string) []Beh {
 	switch ctx {
 	case "body", "custom", "custom2":
-		return append(append([]Beh{}, AllFalsifying...), BSkip, BSkipNow, BSkipf, BPass, BCleanupPass)
+		return append(append([]Beh{}, AllFalsifying...), BSkip, BSkipNow, BSkipf, BPass, BCleanupPass, BCleanupSkip)
 	default: // action, invariant: skipping there is C08's business
-		return append(append([]Beh{}, AllFalsifying[:len(AllFalsifying)-1]...), BPass, BCleanupPass)
+		return append(append([]Beh{}, AllFalsifying[:len(AllFalsifying)-2]...), BPass, BCleanupPass)
 	}
 }
 
